@@ -8,6 +8,7 @@ import (
 	"sync/atomic"
 
 	"github.com/metal-toolbox/audito-maldito/internal/common"
+	"github.com/metal-toolbox/audito-maldito/processors/auditd"
 	"github.com/metal-toolbox/audito-maldito/processors/auditd/sessiontracker"
 
 	"github.com/metal-toolbox/audito-maldito/verif/vlib"
@@ -221,7 +222,7 @@ func runCorr(r *vlib.Run, cfg corrCfg) (*corrStats, int) {
 	parallelDo(nra, func(i int) {
 		rng := vlib.NewRng(r.Seed, fmt.Sprintf("%s/api/%d", r.Prop, i))
 		plan, ops := randHistory(rng, cfg.ropts(rng))
-		res := apiExec{}.run(plan, ops)
+		res := apiExec{debugLog: i%2 == 1}.run(plan, ops) // every other history at debug log level
 		fs := checkHistory(plan, ops, res, false)
 		st.account(plan, ops, res)
 		if i < 2 {
@@ -233,7 +234,10 @@ func runCorr(r *vlib.Run, cfg corrCfg) (*corrStats, int) {
 	})
 	r.Set("random_api_histories", nra)
 	evals += nra
-	// (c) seeded random through Auditd.Read (parser + reassembler + Read loop)
+	// (c) seeded random through Auditd.Read (parser + reassembler + Read loop);
+	// this phase runs with the package-level loggers at debug level
+	auditd.SetLogger(debugLogger())
+	defer auditd.SetLogger(nopLogger())
 	nrr := cfg.randRaw[ti]
 	var rawDone int64
 	parallelDo(nrr, func(i int) {
